@@ -106,8 +106,9 @@ Theorem C09_sealed_instance_equals_reset_instance : forall cap lam pol seal polr
   model_epochs cap lam pol polr (fresh_inst ep (mk_vals vals) conf2 c2 es2) vals ep Ds.
 Proof. exact sealed_equals_reset. Qed.
 
-(* non-vacuity: the two-epoch run of props/C10.v (both epochs seal); Reset of the final instance of that run
-   back to epoch 1 and re-running gives the reference's result again *)
+(* non-vacuity: the two-epoch run of props/C10.v (both epochs seal) satisfies the hypotheses of the theorems
+   above (epochs_ok, pol_ok) and equals the reference.  The Reset theorem applied to a USED instance of that
+   run is C09_reset_example further down (round 3). *)
 Example C09_link_example :
   epochs_ok 1 0 ex_vals 1 me_Ds /\ pol_ok (mk_policy 1 0 ex_vals 1 2) 1 0 ex_vals 1 (length me_Ds) /\
   model_epochs 200 (fun _ => 0) (mk_policy 1 0 ex_vals 1 2) 0 (start 1 ex_vals) ex_vals 1 me_Ds = reference_epochs 1 0 ex_vals 1 me_Ds.
@@ -116,3 +117,59 @@ Proof. exact (conj me_ok (conj me_reset_pol me_refines_by_evaluation)). Qed.
 Print Assumptions C09_epoch_matches_reference_and_seals_to_fresh_instance.
 Print Assumptions C09_reset_then_run_equals_reference.
 Print Assumptions C09_sealed_instance_equals_reset_instance.
+
+(* ================= Round 3 (worker link): arbitrary policies, Reset, more observations =================
+   (proofs/LinkEpochsX.v, LinkXCor.v)  The policy is an arbitrary list of (epoch, frame) -> validators handed
+   over by the application: a different sealing frame and a different validator list in every epoch.
+   C09_epochs_under_any_policy: the run of the model over the epochs equals the reference walk; compared are,
+   besides verdicts and blocks: the epoch and decided frame that every Process reports ((0, epoch + 1) for the
+   sealing call: the new epoch is numbered from frame 1, no decided frame), for every block the validators it
+   seals to (b_seal = exactly the set the policy returned, mk_vals of it), the validators of the instance
+   after the seal, code 7 (not fed) for the rest of the old epoch.  Noise, restarts, rejected events and
+   Process-only feeding are allowed (epochs_ok_x: on the input only).
+   C09_reset_then_run_under_any_policy: from ANY instance, after Reset(epoch, validators) the run over the
+   following epochs equals the reference walk from that epoch: a Reset instance and the instance that a
+   sealing block leaves behind cannot be told apart. *)
+From LV Require Import proofs.LinkReject proofs.LinkX proofs.LinkEpochsX proofs.LinkXCheck proofs.LinkXCor proofs.LinkXExample proofs.LinkXCorExample.
+
+Theorem C09_epochs_under_any_policy : forall cap lam pol vals Ss K,
+  vals <> [] -> epochs_ok_x pol K vals 1 Ss -> N.of_nat (total_builds Ss) <= K -> K < 2 ^ 192 ->
+  model_epochs_x cap lam pol (start 1 vals) vals 1 Ss =
+  map (fun r => (fst (fst r), snd (fst r), option_map mk_vals (snd r))) (ref_epochs_x pol vals 1 Ss).
+Proof. exact link_x. Qed.
+
+Theorem C09_reset_then_run_under_any_policy : forall cap lam pol K i ep vals Ss, K < 2 ^ 192 -> vals <> [] ->
+  epochs_ok_x pol K vals ep Ss -> l_ctr (i_st i) + N.of_nat (total_builds Ss) <= K ->
+  model_epochs_x cap lam pol (snd (fst (step cap pol sample i (OpReset ep vals)))) vals ep Ss =
+  map (fun r => (fst (fst r), snd (fst r), option_map mk_vals (snd r))) (ref_epochs_x pol vals ep Ss).
+Proof. exact link_x_after_reset. Qed.
+
+(* the three-epoch run: epoch 1 seals at frame 2 to re-weighted validators in another order, epoch 2 seals at
+   frame 1 back to the first list, epoch 3 is not sealed; then a used instance (epoch 2, other validators,
+   37 events stored) is Reset to epoch 1 and gives the same result again *)
+Example C09_any_policy_example :
+  xx_pol = [((1, 2), xx_vals2); ((2, 1), ex_vals)] /\ mk_vals xx_vals2 <> mk_vals ex_vals /\
+  epochs_ok_xb xx_pol 400 ex_vals 1 xx_Ss = true /\
+  map (fun r => (snd (fst r), snd r)) (ref_epochs_x xx_pol ex_vals 1 xx_Ss) =
+    [ ([(1, 1000, [], None); (2, 1015, [37094], Some (mk_vals xx_vals2))], Some xx_vals2);
+      ([(1, 3002, [], Some (mk_vals ex_vals))], Some ex_vals);
+      ([(1, 5000, [], None); (2, 5015, [37094], None)], None) ] /\
+  model_epochs_x 3 xx_lam xx_pol (start 1 ex_vals) ex_vals 1 xx_Ss =
+    map (fun r => (fst (fst r), snd (fst r), option_map mk_vals (snd r))) (ref_epochs_x xx_pol ex_vals 1 xx_Ss) /\
+  (l_epoch (i_st xx_used) = 2 /\ l_vals (i_st xx_used) = mk_vals xx_vals2 /\ length (i_es xx_used) = 37%nat) /\
+  model_epochs_x 3 xx_lam xx_pol (snd (fst (step 3 xx_pol sample xx_used (OpReset 1 ex_vals)))) ex_vals 1 xx_Ss =
+    map (fun r => (fst (fst r), snd (fst r), option_map mk_vals (snd r))) (ref_epochs_x xx_pol ex_vals 1 xx_Ss).
+Proof.
+  split; [reflexivity|]. split; [vm_compute; discriminate|]. split; [exact xx_input_ok|]. split; [vm_compute; reflexivity|].
+  split; [exact xx_refines_by_evaluation|]. split; [exact xx_used_state | exact xx_after_reset].
+Qed.
+
+(* C09_reset_then_run_equals_reference (round 2) applied to a used instance of the two-epoch run *)
+Example C09_reset_example :
+  l_epoch (i_st me_used) = 2 /\ l_ctr (i_st me_used) = 23 /\
+  model_epochs 200 (fun _ => 0) me_pol 0 (snd (fst (step 200 me_pol sample me_used (OpReset 1 ex_vals)))) ex_vals 1 me_Ds =
+  reference_epochs 1 0 ex_vals 1 me_Ds.
+Proof. exact (conj (proj1 me_used_state) (conj (proj2 me_used_state) me_after_reset)). Qed.
+
+Print Assumptions C09_epochs_under_any_policy.
+Print Assumptions C09_reset_then_run_under_any_policy.
